@@ -122,6 +122,7 @@ Fixpoint eval_g (rf : ram -> bool -> eres -> eres) (m : ram) (en : env) (e : exp
                   match apply_i64 op a b with Val z => EVal (Some (SNum z)) | Panic => EPanic | Ovf => EErr (ErrOverflow op) end
               | Some (SStr a), Some (SStr b) =>
                   match try_apply_str op a b with Some v => EVal (Some v) | None => EErr (ErrStrOp op) end
+              | Some (SNum _), Some (SStr _) | Some (SStr _), Some (SNum _) => EErr (ErrMixedOp op)
               | _, _ => EVal None
               end
           end
